@@ -305,6 +305,7 @@ type Contract struct {
 	Ensures   []Clause
 	MayPanic  []Clause
 	Facts     []Clause // assumed at entry; each must name (label) the ground obligation that backs it
+	Det       []DetClause
 	Assigns   []string
 	HasAssign bool
 	Writes    []string // extern: names of params whose pointee is overwritten
@@ -492,6 +493,10 @@ func (cs *ContractSet) parseContractFile(path, pkgPath string) error {
 			}
 			cs.Aliases[pkgPath][f[0]] = p
 		case "pure":
+			if cur != nil && rest == "" {
+				cur.Pure = true
+				continue
+			}
 			for _, n := range strings.Fields(rest) {
 				cs.PureFuncs[n] = true
 			}
@@ -608,6 +613,36 @@ func (cs *ContractSet) parseContractFile(path, pkgPath string) error {
 				cur.MaxPaths, _ = strconv.Atoi(rest)
 			case "covers":
 				cur.Covers = true
+			case "deterministic":
+				// deterministic [@label:] [when <cond>] in <expr>, <expr>, ...
+				d := DetClause{Line: l.no}
+				r := rest
+				if strings.HasPrefix(r, "@") {
+					i := strings.Index(r, ":")
+					d.Label = strings.TrimSpace(r[1:i])
+					r = strings.TrimSpace(r[i+1:])
+				}
+				if strings.HasPrefix(r, "when ") {
+					i := strings.LastIndex(r, " in ")
+					if i < 0 {
+						return fmt.Errorf("%s:%d: deterministic when <cond> in <exprs>", path, l.no)
+					}
+					w, err := mkClause(r[5:i], l.no)
+					if err != nil {
+						return err
+					}
+					d.When = &w
+					r = r[i+1:]
+				}
+				r = strings.TrimPrefix(strings.TrimSpace(r), "in ")
+				for _, part := range splitTopCommas(r) {
+					cl, err := mkClause(part, l.no)
+					if err != nil {
+						return err
+					}
+					d.In = append(d.In, cl)
+				}
+				cur.Det = append(cur.Det, d)
 			case "writes":
 				cur.Writes = append(cur.Writes, fieldsComma(rest)...)
 			case "assigns":
